@@ -13,9 +13,9 @@ PROP = dict(
         env=dict(GOGC="400"),  # every zson.NewParser allocates a 64 KiB buffer and compiles two regexps: GC dominated otherwise
         technique="property-based testing (rapid): round-trip and differential oracles, root-cause classification by neutralisation",
         tests=[
-            dict(name="TestZSONRoundTrip", quick=(8, 500), thorough=(16, 10000)),
-            dict(name="TestJSONSubset", quick=(8, 400), thorough=(16, 6000)),
-            dict(name="TestZSONNonNFC", quick=(4, 150), thorough=(8, 3000)),
-            dict(name="TestZSONNullInUnion", quick=(4, 150), thorough=(8, 3000)),
+            dict(name="TestZSONRoundTrip", quick=(8, 500), thorough=(16, 6000)),
+            dict(name="TestJSONSubset", quick=(8, 400), thorough=(16, 4000)),
+            dict(name="TestZSONNonNFC", quick=(4, 150), thorough=(8, 2000)),
+            dict(name="TestZSONNullInUnion", quick=(4, 150), thorough=(8, 2000)),
         ],
 )
